@@ -131,6 +131,17 @@ func (c *compiler) compileFile(astFile *ast.File, pkg *pkg.Package) *file {
 			// We're looking for a call in the form "cff.Flow" or
 			// "cff.Parallel". It will be a SelectorExpr where the "X" is a
 			// reference to the "cff" package.
+			if id, ok := n.Fun.(*ast.Ident); ok {
+				// A directive called through a dot-import of cff is not
+				// a selector expression: it would be left in place
+				// unprocessed, and no file would be generated.
+				if fn, ok := c.info.Uses[id]; ok && isPackagePathEquivalent(fn.Pkg(), cffImportPath) && IsCodegenDirective(fn.Name()) {
+					c.errf(c.nodePosition(n), "%v is called through a dot-import of %q: "+"code generation directives must be qualified with the package name", fn.Name(), cffImportPath)
+					return false
+				}
+				return true // keep looking
+			}
+
 			sel, ok := n.Fun.(*ast.SelectorExpr)
 			if !ok {
 				return true // keep looking
